@@ -5,14 +5,23 @@
    at most one packet each) while some socket emitted, at a fixed instant.  If every socket has a measure
    that strictly decreases on an emitting dispatch and does not increase on a silent one, the loop returns
    after at most (sum of the measures) emitting passes — whatever the sockets are and however many.
-   The per-socket hypotheses are theorems of the socket models: TCP `C03tcp_burst_step` (Props/C03tcp.v:
-   measure mu, bound 6 + ceil(min(win, txlen)/eff_mss)); DNS `C19_poll_is_one_dispatch_each` (one dispatch per
-   pending query per poll); UDP/ICMP/raw: the transmit queue length (`C09_tx_exactly_once_when_emit_ok`: each
-   emitting dispatch removes exactly one datagram); DHCPv4: at most one message per dispatch and the retry
-   timer moves strictly into the future (`C18_solicit_when_due`).  Sockets are treated as independent
-   components (they share the device and the neighbor cache only through "emit refused", which is a silent
-   dispatch); that independence and the instantiation of this abstract theorem for a mixed socket set are
-   NOT machine-checked here (stated in checks/C03.loop.json). *)
+   The first three theorems below treat the sockets as independent components; the later ones make what
+   the sockets share (device budget, neighbor cache, fragmenter) an explicit environment of ARBITRARY
+   behaviour, so no independence assumption is left (C03_egress_loop_shared_env_returns).
+
+   What is instantiated, machine-checked:
+   - TCP socket sets: Props/C03tcp.v `C03_tcp_socket_set_egress_returns` (per-socket facts
+     `C03_tcp_burst_step` / `C03_tcp_silent_step`: measure mu, bound 6 + ceil(min(win, txlen)/eff_mss));
+   - UDP/ICMP/raw socket sets: `C03_dgram_socket_set_egress_returns` below (measure = queued datagrams; the
+     model is the one C09 ties to udp.rs / icmp.rs / raw.rs);
+   - mixed sets: `C03_egress_loop_mixed_set_returns` below shows the three hypotheses closed under sums of
+     two component kinds (iterate for more), so a set mixing TCP and datagram sockets needs no further
+     argument; the concrete TCP + datagram instance is not stated as a theorem of its own.
+   What is NOT plugged in mechanically: DNS (`C19_poll_is_one_dispatch_each`: one dispatch per pending query
+   per poll) and DHCPv4 (`C18_solicit_when_due`: at most one message per dispatch and the retry timer moves
+   strictly into the future) - their per-dispatch facts are theorems of C19 / C18, but no measure / invariant
+   instance of the loop hypotheses is proved for them.  The environment itself (the real device, neighbor
+   cache and fragmenter) is an arbitrary oracle, not a model (stated in checks/C03.loop.json). *)
 From SV Require Import Lib.Base Model.EgressLoop Proofs.EgressLoopProofs.
 From SV Require Import Gen.Consts Model.DgramQueue Model.Dgram Proofs.DgramProofs Proofs.DgramLoop.
 
